@@ -17,6 +17,7 @@ mod quake;
 mod reader;
 mod real;
 mod settings;
+mod small;
 mod unreal2;
 mod valve;
 mod views;
@@ -43,6 +44,7 @@ fn entries() -> Vec<(&'static str, EntryFn)> {
     v.extend(unreal2::entries());
     v.extend(minecraft::entries());
     v.extend(gs3::entries());
+    v.extend(small::entries());
     v
 }
 
